@@ -133,3 +133,31 @@ func (cs *ConsensusState) VerifStartPreamble() error {
 	// VERIF-COPY-END
 	return nil
 }
+
+// VerifRealTicker drives the production timeoutTicker (ticker.go) from outside the package.
+type VerifRealTicker struct{ t TimeoutTicker }
+
+// VerifNewRealTicker starts a production timeout ticker.
+func VerifNewRealTicker() *VerifRealTicker {
+	t := NewTimeoutTicker()
+	t.Start()
+	return &VerifRealTicker{t}
+}
+
+// Schedule is ScheduleTimeout.
+func (v *VerifRealTicker) Schedule(d time.Duration, height, round int64, step RoundStepType) {
+	v.t.ScheduleTimeout(timeoutInfo{d, height, round, step})
+}
+
+// Fired returns the next fired timeout, waiting at most `wait`.
+func (v *VerifRealTicker) Fired(wait time.Duration) (VerifTimeout, bool) {
+	select {
+	case ti := <-v.t.Chan():
+		return VerifTimeout{ti.Duration, ti.Height, ti.Round, ti.Step}, true
+	case <-time.After(wait):
+		return VerifTimeout{}, false
+	}
+}
+
+// Stop stops the ticker.
+func (v *VerifRealTicker) Stop() { v.t.Stop() }
